@@ -11,6 +11,7 @@ import (
 	"fmt"
 	"os"
 	"path/filepath"
+	"reservoir/config"
 	"runtime"
 	"sync"
 	"sync/atomic"
@@ -122,9 +123,51 @@ func runC19Stress() {
 			}
 		}
 	}
+	// settings without a listener (the retry switches, the cache policy) are followed by READING them on every request:
+	// two readers spin on a real property while it is changed many times; after each committed change the value read
+	// is the new one (a reader that lands inside a commit must not pin the old value)
+	{
+		cfg := config.NewDefault()
+		p := &cfg.Proxy.RetryOnRange416
+		stop := make(chan struct{})
+		var rd sync.WaitGroup
+		var reads atomic.Int64
+		for g := 0; g < 2; g++ {
+			rd.Add(1)
+			go func() {
+				defer rd.Done()
+				for {
+					select {
+					case <-stop:
+						return
+					default:
+						p.Read()
+						reads.Add(1)
+					}
+				}
+			}()
+		}
+		rounds3 := 300000
+		if thorough() {
+			rounds3 = 3000000
+		}
+		v := p.Read()
+		for round := 0; round < rounds3 && len(failures) < 3; round++ {
+			total++
+			v = !v
+			p.Stage(v)
+			p.CommitStaged()
+			if got := p.Read(); got != v {
+				time.Sleep(20 * time.Millisecond)
+				failures = append(failures, failure{"read-vs-commit", round, fmt.Sprintf("proxy.retry_on_range_416 was committed as %v while two request-path readers were reading it; read back right after the commit: %v, 20 ms later: %v", v, got, p.Read())})
+			}
+		}
+		close(stop)
+		rd.Wait()
+	}
 	out := map[string]any{
 		"harness": "conf/C19stress", "seed": *flagSeed, "tier": *flagTier, "total": total, "distinct": total, "distinct_nontrivial": total,
-		"rule":         "rounds of a Fire racing with the Unsubscribe of an early subscriber among 24 (every other listener gets the value exactly once); pairs of back-to-back Fire calls on one real Event with a swept scheduling gap (0-63 yields), 1 and 3 listeners; after every pair each listener must end on the second value; running=false with pending>0 = stranded",
+		"rule":         "a real property changed 300000 times (Stage+CommitStaged) under two spinning Read()ers: the value read right after each change is the new one; rounds of a Fire racing with the Unsubscribe of an early subscriber among 24 (every other listener gets the value exactly once); pairs of back-to-back Fire calls on one real Event with a swept scheduling gap (0-63 yields), 1 and 3 listeners; after every pair each listener must end on the second value; running=false with pending>0 = stranded",
 		"distribution": map[string]any{"rounds": map[string]int{"pairs": total}},
 		"samples":      []any{map[string]any{"case": "back-to-back", "listeners": 1}},
 		"files":        []string{}, "readable": []any{},
